@@ -352,11 +352,11 @@ def check_use_then_gc(s0: int, s1: int, quota: int, which: int, first_time: bool
 
 
 # ------------------------------------------------------ (b) two processes ----
-def installer(tag, size, quota):
+def installer(tag, size, quota, idx=2):
     def body(view):
         share = SH.LocalShare({'path': STORE, 'quota': quota})
         wsdir = '/proj%s' % tag
-        return share.installSharedPackage(wsdir + '/ws/workspace', IDS[2], body.h, False)
+        return share.installSharedPackage(wsdir + '/ws/workspace', IDS[idx], body.h, False)
     return body
 
 
@@ -428,6 +428,15 @@ def scenario2(kind, sched):
         a = installer('A', 4, 100)
         a.h = tree_hash(fs, '/projA/ws/workspace')
         procs = [Proc('A', fs, a, inst, private=private), Proc('G', fs, collector(100, True), inst, private=private)]
+    elif kind == 6:      # two projects install DIFFERENT packages into a store that is still empty (no repo.json yet)
+        fs.mkdirs(STORE)
+        sizes = [3, 4, 4]
+        mk_workspace(fs, '/projA', b'same')
+        mk_workspace(fs, '/projB', b'other')
+        a, b = installer('A', 4, None, 2), installer('B', 4, None, 1)
+        a.h = tree_hash(fs, '/projA/ws/workspace')
+        b.h = tree_hash(fs, '/projB/ws/workspace')
+        procs = [Proc('A', fs, a, inst, private=private), Proc('B', fs, b, inst, private=private)]
     else:
         raise V.HarnessGap('kind')
 
@@ -498,6 +507,6 @@ def PLAN(tier):
         P.append(dict(fn='check_install', shard=[st, pm, um], timeout=150 if q else 900))
     P.append(dict(fn='check_use', shard=[0], timeout=100))
     P.append(dict(fn='check_use_then_gc', shard=[0], timeout=150 if q else 600))
-    for kind in range(6):
+    for kind in range(7):
         P.append(dict(fn='check_two', shard=[kind, 10 if q else 14], timeout=250 if q else 1800))
     return P
